@@ -36,6 +36,10 @@ func (a *StreamSvc) Push(s *SS) error {
 			w.streamEnd = append(w.streamEnd, [3]string{errStr(err), errStr(s.st.WriteMessage(&msg)), errStr(s.st.ReadMessage(nil, &again))})
 			return err
 		}
+		if w.keep {
+			w.kept = append(w.kept, in)
+			w.keptSum = append(w.keptSum, digest(in))
+		}
 		if len(in) > 0 {
 			w.streamLog[in[0]] = append(w.streamLog[in[0]], fmt.Sprintf("%x", in))
 		}
